@@ -4,6 +4,6 @@ EXTENDS OpsetDispatch
 ASSUME PrintT(<<"SIGTABLE", ToJson(SigTable)>>)
 TInit == /\ dom = "x" /\ name = "x" /\ ver = 0 /\ pc = "x" /\ cls = 0 /\ owner = 0 /\ dyn = 0
          /\ pos = <<>> /\ given = {} /\ inputs = <<>> /\ kw = <<>> /\ used = 0 /\ prep = <<>> /\ pops = 0
-         /\ event = NoEvent /\ want = NoWant
+         /\ event = NoEvent /\ want = NoWant /\ callee = 0 /\ gstd = 0 /\ req = 0 /\ mstd = 0
 TSpec == TInit /\ [][UNCHANGED vars]_vars
 =============================================================================
